@@ -56,6 +56,14 @@ type Step struct {
 	Dur int64 `json:"dur,omitempty"`
 	// par: concurrent client scripts
 	Par [][]Step `json:"par,omitempty"`
+	// CancelAfter (run): the run's context is cancelled this many simulated
+	// nanoseconds after the step starts (a client giving up); the step may then
+	// fail with a cancellation error, which is not held against it.
+	CancelAfter int64 `json:"cancel_after,omitempty"`
+	// CancelAtEvent (run): the run's context is cancelled when this many
+	// simulator events (seam events, yield points, user-function calls) have
+	// happened since the step started — a trigger independent of simulated time.
+	CancelAtEvent int `json:"cancel_at_event,omitempty"`
 	// Expectations (filled by the generator; checked by the child).
 	MustSucceed bool `json:"must_succeed,omitempty"`
 	MustFail    bool `json:"must_fail,omitempty"`
